@@ -54,21 +54,23 @@ mod bset__pari;
 mod opt_lat__pari;
 mod lat_two_keys__par;
 mod count_paths__par;
-mod count_paths__redecl;
-mod neg_basic__mrt;
-mod neg_basic__srcpar;
-mod agg_minmaxsum__par;
+mod count_paths__src1;
+mod neg_basic__pari;
+mod neg_basic__src2;
+mod neg_basic__permpar;
+mod agg_depth__pari;
 mod agg_user__ser;
 mod agg_bound_mix__ser;
-mod disj__pari;
-mod disj__init;
-mod disj__exppar;
-mod pat_args__pari;
-mod multi_head_disj__ser;
-mod neg_in_disj__exp;
-mod mac_basic__src0;
-mod mac_basic__exppar;
-mod mac_nested__pari;
+mod disj__ser;
+mod disj__src0;
+mod disj__perm2;
+mod disj_nested__exp;
+mod rep_expr__par;
+mod multi_head_disj__exppar;
+mod mac_basic__pari;
+mod mac_basic__src2;
+mod mac_capture__par;
+mod mac_nested__exppar;
 
 fn lookup(name: &str) -> fn() -> Box<dyn Driven> {
    match name {
@@ -118,21 +120,23 @@ fn lookup(name: &str) -> fn() -> Box<dyn Driven> {
       "opt_lat__pari" => opt_lat__pari::make,
       "lat_two_keys__par" => lat_two_keys__par::make,
       "count_paths__par" => count_paths__par::make,
-      "count_paths__redecl" => count_paths__redecl::make,
-      "neg_basic__mrt" => neg_basic__mrt::make,
-      "neg_basic__srcpar" => neg_basic__srcpar::make,
-      "agg_minmaxsum__par" => agg_minmaxsum__par::make,
+      "count_paths__src1" => count_paths__src1::make,
+      "neg_basic__pari" => neg_basic__pari::make,
+      "neg_basic__src2" => neg_basic__src2::make,
+      "neg_basic__permpar" => neg_basic__permpar::make,
+      "agg_depth__pari" => agg_depth__pari::make,
       "agg_user__ser" => agg_user__ser::make,
       "agg_bound_mix__ser" => agg_bound_mix__ser::make,
-      "disj__pari" => disj__pari::make,
-      "disj__init" => disj__init::make,
-      "disj__exppar" => disj__exppar::make,
-      "pat_args__pari" => pat_args__pari::make,
-      "multi_head_disj__ser" => multi_head_disj__ser::make,
-      "neg_in_disj__exp" => neg_in_disj__exp::make,
-      "mac_basic__src0" => mac_basic__src0::make,
-      "mac_basic__exppar" => mac_basic__exppar::make,
-      "mac_nested__pari" => mac_nested__pari::make,
+      "disj__ser" => disj__ser::make,
+      "disj__src0" => disj__src0::make,
+      "disj__perm2" => disj__perm2::make,
+      "disj_nested__exp" => disj_nested__exp::make,
+      "rep_expr__par" => rep_expr__par::make,
+      "multi_head_disj__exppar" => multi_head_disj__exppar::make,
+      "mac_basic__pari" => mac_basic__pari::make,
+      "mac_basic__src2" => mac_basic__src2::make,
+      "mac_capture__par" => mac_capture__par::make,
+      "mac_nested__exppar" => mac_nested__exppar::make,
       _ => panic!("no such program variant in this shard: {}", name),
    }
 }
